@@ -12,12 +12,47 @@ import sys
 import traceback
 
 
-class CaseTimeout(BaseException):
+class CaseTimeout(SystemExit):
+    # (a SystemExit: asyncio stores any other BaseException raised inside a task step in the task and carries on)
     pass
+
+
+class Spin(SystemExit):
+    """One iteration of a virtual-time loop used SPIN_CPU..2*SPIN_CPU seconds of this process's CPU time
+    without returning to the loop: something computes or loops without ever yielding."""
+
+
+SPIN_CPU = 40.0
+_spin_seen = [None]
+_spin_sites = {}        # site -> times seen in this shard (after the first, the budget per case drops to 5 CPU-s)
 
 
 def _alarm(signum, frame):
     raise CaseTimeout()
+
+
+def _vtalarm(signum, frame):
+    from vlib import vloop
+    if vloop.RUNNING[0] <= 0:
+        _spin_seen[0] = None
+        return
+    if _spin_seen[0] == vloop.TICKS[0]:
+        stack = traceback.extract_stack(frame)
+        raise Spin(stack)
+    _spin_seen[0] = vloop.TICKS[0]
+
+
+def _spin_site(stack):
+    """(key suffix, text) for the innermost frame inside the bumble package, or None."""
+    import bumble
+    root = os.path.dirname(os.path.abspath(bumble.__file__))
+    inner = [f for f in stack if os.path.abspath(f.filename).startswith(root + os.sep)]
+    if not inner:
+        return None
+    f = inner[-1]
+    mod = os.path.relpath(f.filename, root)[:-3].replace(os.sep, '.')
+    chain = ' <- '.join(f'{os.path.basename(x.filename)}:{x.lineno} {x.name}' for x in reversed(stack[-6:]))
+    return f'{mod}.{f.name}', chain
 
 
 def run_one(mod, case, seed):
@@ -28,6 +63,10 @@ def run_one(mod, case, seed):
     timeout = int(case.get('_timeout', getattr(mod, 'CASE_TIMEOUT', 120)))
     signal.signal(signal.SIGALRM, _alarm)
     signal.alarm(timeout)
+    _spin_seen[0] = None
+    signal.signal(signal.SIGVTALRM, _vtalarm)
+    budget = 5.0 if _spin_sites else SPIN_CPU
+    signal.setitimer(signal.ITIMER_VIRTUAL, budget, budget)
     note = None
     try:
         res = mod.run_case(case, r)
@@ -36,6 +75,18 @@ def run_one(mod, case, seed):
                 vloop.run(res)
             except vloop.Hang as e:
                 r.bad(case.get('_hang_key', 'hang/case'), f'{e}')
+    except Spin as e:
+        site = _spin_site(e.args[0])
+        if site is None:
+            note = (f'case {case.get("_i")}: one loop iteration used more than {SPIN_CPU:.0f} CPU-seconds outside bumble '
+                    f'(harness): {json.dumps(case, default=str)[:200]}')
+        elif _spin_sites and site[0] not in _spin_sites:
+            note = (f'case {case.get("_i")}: after a spin at {sorted(_spin_sites)} the reduced budget of {budget:.0f} CPU-seconds '
+                    f'ran out at another place ({site[0]}): not judged')
+        else:
+            _spin_sites[site[0]] = _spin_sites.get(site[0], 0) + 1
+            r.bad(f'spin/{site[0]}', f'one event-loop iteration used more than {budget:.0f} s of CPU time without returning '
+                                     f'to the loop (a wait that never yields); innermost frames: {site[1]}')
     except CaseTimeout:
         note = f'case {case.get("_i")} hit the per-case wall watchdog ({timeout}s): {json.dumps(case, default=str)[:300]}'
     except Exception as e:  # harness failure is not a verdict on the code
@@ -43,6 +94,7 @@ def run_one(mod, case, seed):
         note = f'case {case.get("_i")} harness error {type(e).__name__}: {e} :: {tb[-1200:]}'
     finally:
         signal.alarm(0)
+        signal.setitimer(signal.ITIMER_VIRTUAL, 0, 0)
     return r, note
 
 
@@ -76,6 +128,9 @@ def main():
         mod.init_shard(job['tier'], job['seed'])
     out = {'bumble_file': bumble.__file__, 'cases': [], 'inconclusive': []}
     for case in job['cases']:
+        if sum(_spin_sites.values()) >= 8:
+            out['inconclusive'].append(f'case {case.get("_i")} skipped: 8 cases of this shard already spun at {sorted(_spin_sites)}')
+            continue
         r, note = run_one(mod, case, job['seed'])
         out['cases'].append(r.to_json())
         if note:
